@@ -324,6 +324,7 @@ class Lattice:
         # not necessary for loading, but still useful
         h5gr.attrs['dim'] = self.dim
         h5gr.attrs['N_sites'] = self.N_sites
+        h5gr.attrs['mps_unit_cell_width'] = self.mps_unit_cell_width  # differs from Ls[0] after grouping sites
         if hasattr(self, 'segment_first_last'):
             first, last = self.segment_first_last
             h5gr.attrs['segment_first'] = first
@@ -366,6 +367,8 @@ class Lattice:
         obj.bc_MPS = hdf5_loader.load(subpath + 'boundary_condition_MPS')
         obj.order = hdf5_loader.load(subpath + 'order_for_MPS')  # property setter!
         obj.pairs = hdf5_loader.load(subpath + 'pairs')
+        if 'mps_unit_cell_width' in h5gr.attrs:  # (files of older versions: Ls[0] from _set_Ls)
+            obj.mps_unit_cell_width = int(h5gr.attrs['mps_unit_cell_width'])
         if 'segment_first' in h5gr.attrs:
             first = h5gr.attrs['segment_first']
             last = h5gr.attrs['segment_last']
